@@ -76,7 +76,9 @@ def project(wn, version):
             d.update({"elev": N(n.elevation), "init": N(n.init_level), "min": N(n.min_level), "max": N(n.max_level),
                       "diam": N(n.diameter), "minvol": N(n.min_vol), "vcurve": S(n.vol_curve_name),
                       "overflow": S(bool(n.overflow) if version >= 2.2 else False),
-                      "mix": S(n.mixing_model), "bulk": N(n.bulk_coeff or 0.0)})
+                      "mix": S(n.mixing_model), "bulk": N(n.bulk_coeff or 0.0),
+                      # the fraction belongs to the two-compartment model only (the format has no place for it otherwise)
+                      "mixfrac": N((n.mixing_fraction or 0.0) if getattr(n.mixing_model, "name", "") in ("Mix2", "TwoComp") else 0.0)})
         else:
             d.update({"head": N(n.base_head), "pat": S(n.head_pattern_name)})
         nodes[name] = Dt(d)
@@ -176,6 +178,8 @@ def decorate(w, wn, s, rnd):
     o.hydraulic.emitter_exponent = rnd.choice([0.5, 0.6])
     o.hydraulic.viscosity = rnd.choice([1.0, 1.1])
     o.quality.parameter = rnd.choice(["NONE", "CHEMICAL", "AGE"])
+    if o.quality.parameter == "CHEMICAL" and rnd.random() < 0.5:
+        o.quality.inpfile_units = "ug/L"          # concentrations, source strengths and reaction coefficients in micrograms
     o.quality.diffusivity = rnd.choice([1.0, 1.2])
     o.quality.tolerance = rnd.choice([0.01, 0.02])
     o.energy.global_price = rnd.choice([0.0, 0.12])
@@ -184,6 +188,16 @@ def decorate(w, wn, s, rnd):
     o.reaction.bulk_coeff = rnd.choice([0.0, -1.0 / 86400.0])
     o.reaction.wall_coeff = rnd.choice([0.0, -0.5 / 86400.0])
     o.reaction.bulk_order = 1
+    # wall reactions of order 0 (mass/area/time) or 1 (length/time), also per pipe: the order applies to every coefficient of
+    # the [REACTIONS] section wherever its ORDER line stands.  Values are chosen printable at %.4f in both unit families.
+    o.reaction.wall_order = rnd.choice([1, 1, 0])
+    if o.reaction.wall_order == 0:
+        o.reaction.wall_coeff = rnd.choice([0.0, -500e-6 / 86400.0])
+    for l in s["links"]:
+        if l["type"] == "pipe" and rnd.random() < 0.25:
+            wn.get_link(l["name"]).wall_coeff = (-3.048 / 86400.0) if o.reaction.wall_order == 1 else (-800e-6 / 86400.0)
+        if l["type"] == "pipe" and rnd.random() < 0.15:
+            wn.get_link(l["name"]).bulk_coeff = -0.75 / 86400.0
     for l in s["links"]:          # controls on valve settings and pump status
         link = wn.get_link(l["name"])
         if l["type"] in ("PRV", "PSV", "FCV", "TCV") and rnd.random() < 0.7:
@@ -197,6 +211,8 @@ def decorate(w, wn, s, rnd):
         wn.add_control("cprs", C.Control(C.ValueCondition(wn.get_node(rnd.choice(js)), "pressure", rnd.choice(["<", ">"]), rnd.choice([12.5, 20.0, 35.0])),
                                          C.ControlAction(wn.get_link(rnd.choice(pipes)), "status", w.network.LinkStatus.Closed)))
     for n in s["nodes"]:
+        if n["type"] == "J" and len(n["dem"]) == 1 and rnd.random() < 0.4:
+            wn.get_node(n["name"]).demand_timeseries_list[0].category = "single"     # one demand that carries a category
         if n["type"] == "J" and rnd.random() < 0.3:
             wn.get_node(n["name"]).emitter_coefficient = rnd.choice([0.0001, 0.0005])
         if n["type"] == "T":
